@@ -132,6 +132,8 @@ def parse_playback(out, ob):
     for b in blocks:
         if "Check for `cover`" in b:
             continue
+        if ob.get("fn") and not re.search(r"for harness `[^`]*\bh_%s`" % re.escape(ob["fn"]), b):
+            continue  # --harness matches by substring: keep only this harness's own playback
         best = b
         break
     if best is None:
@@ -167,7 +169,7 @@ def native_replay(ctx, wd, module_text, ob, cex):
     main = """
 fn main() {
     %s
-    let r = std::panic::catch_unwind(|| %s(%s));
+    let r = ::std::panic::catch_unwind(|| %s(%s));
     match r { Ok(true) => println!("QX-REPLAY holds"), Ok(false) => println!("QX-REPLAY violated"), Err(_) => println!("QX-REPLAY panicked") }
 }
 """ % (pre, ob["fn"], ", ".join(args))
@@ -316,6 +318,10 @@ def run(ctx, uname, u):
             detail += "\n(playback failed: %s)" % e
         if cex is not None and not u.get("append_to"):
             verdict, log = native_replay(ctx, wd, module_text, o, cex)
+            if verdict is None:
+                res["status"] = "undecided"
+                res["undecided_reason"] = "native replay for %s could not be built/run: %s" % (o["tag"], log[-300:])
+                continue
             replayed = verdict in ("violated", "panicked")
             detail += "\nnative replay of the extracted kernel on the counterexample: %s" % verdict
         elif cex is not None:
